@@ -24,16 +24,19 @@ def variants_quick(scn):
 def variants(scn):
     """3 runs per scenario: plain values and keys on TestScheduler (hot source); falsy values AND falsy keys
     (None, 0, '', ()) with a cold source; HistoricalScheduler (datetime clock) with falsy keys; the call form
-    (pipe / fluent / short argument list) and hot/cold are spread deterministically over the scenarios."""
+    (pipe / fluent / short argument list) and hot/cold are spread deterministically over the scenarios.
+    Predicate result profile (partition*): `pres="bool"` - the predicate returns True / False; `pres="obj"` - it
+    returns truthy / falsy values that are not bools (1, '0', [0] ... / 0, None, '', (), [], {}, 0.0): its truth
+    value decides the output, like for filter."""
     b = _bits(scn)
     bit = lambda n: bool((b >> n) & 1)
     return [
         dict(clock="test", scale=10, profile="plain", kprofile="plain", salt=b % 2, hot=True, form="pipe", short=bit(0),
-             twice=bit(7)),
+             twice=bit(7), pres="obj" if bit(9) else "bool"),
         dict(clock="test", scale=2, profile="falsy", kprofile="falsy", salt=b % 8, hot=False,
-             form="fluent" if bit(1) else "pipe", short=bit(2), twice=bit(8)),
+             form="fluent" if bit(1) else "pipe", short=bit(2), twice=bit(8), pres="obj"),
         dict(clock="hist", scale=3, profile="falsy" if bit(3) else "plain", kprofile="falsy", salt=(b >> 4) % 8, hot=bit(5),
-             form="fluent" if bit(6) else "pipe", short=False),
+             form="fluent" if bit(6) else "pipe", short=False, pres="obj" if bit(3) else "bool"),
     ]
 
 
